@@ -282,3 +282,31 @@ Proof.
       by (rewrite <- !app_assoc; reflexivity).
     apply drop_app_len. symmetry; exact E.
 Qed.
+
+(* NIfTI-1 stores vox_offset in a float32 field: exactly representable (24-bit significand)
+   for every multiple of 16 below 2^28 *)
+Definition representable24 (v : Z) : Prop := exists m e, 0 <= e /\ v = m * 2 ^ e /\ Z.abs m < 2 ^ 24.
+
+Lemma offset_float32_exact v : 0 <= v < 2 ^ 28 -> v mod 16 = 0 -> representable24 v.
+Proof.
+  intros Hv Hm. exists (v / 16), 4. split; [lia|]. split.
+  - change (2 ^ 4) with 16. Z.to_euclidean_division_equations; lia.
+  - change (2 ^ 24) with 16777216 in *. change (2 ^ 28) with 268435456 in *.
+    Z.to_euclidean_division_equations; lia.
+Qed.
+
+(* and the first multiple of 16 that needs 25 bits is not: 2^28 + 16 *)
+Lemma offset_float32_limit : ~ representable24 (2 ^ 28 + 16).
+Proof.
+  intros (m & e & He & Hv & Hm).
+  change (2 ^ 28 + 16) with 268435472 in Hv. change (2 ^ 24) with 16777216 in Hm.
+  (* 268435472 = 2^4 * 16777217 with 16777217 odd: any m * 2^e decomposition has e <= 4, so |m| >= 16777217 *)
+  assert (He4 : e <= 4).
+  { destruct (Z_le_gt_dec e 4) as [|Hgt]; [assumption|exfalso].
+    assert (Hdiv : (2 ^ 5 | 268435472)).
+    { rewrite Hv. replace e with (5 + (e - 5)) by lia. rewrite Z.pow_add_r by lia.
+      exists (m * 2 ^ (e - 5)). ring. }
+    destruct Hdiv as [q Hq]. change (2 ^ 5) with 32 in Hq. lia. }
+  assert (Hcases : e = 0 \/ e = 1 \/ e = 2 \/ e = 3 \/ e = 4) by lia.
+  destruct Hcases as [E|[E|[E|[E|E]]]]; subst e; cbn in Hv; lia.
+Qed.
